@@ -1,5 +1,5 @@
 (* C01 - every row Wheatley rings is a complete row.  ONLY statements closed by `exact`. *)
-From Wh Require Import Prelude Permute PN Gens Complib Tower Rhythm PyStr Sys PermuteP GensP BotP.
+From Wh Require Import Prelude Permute PN Gens Complib Tower Rhythm PyStr Sys PermuteP GensP BotP ResizeP.
 From Coq Require Import Permutation.
 
 (* one change, ALL stages, place lists (sorted or not, in range or not) and rows *)
@@ -51,6 +51,28 @@ Theorem C01_cover_padding_is_complete_row : forall stage n custom sr op r,
   Permutation r sr ->
   Permutation (if length r <? length op then r ++ skipn (length r) op else r) op.
 Proof. exact cover_padding_is_complete_row. Qed.
+
+(* ... and across a size change DURING a touch: whatever the Bot rings next after `_on_size_change` (opening
+   row, closing rounds, or a method row with its covers) is a complete row of the NEW tower, as long as the
+   method still fits it.  `started`: the generator's start row is the one computed from its stage and custom
+   row, which every constructor establishes. *)
+Theorem C01_rows_complete_after_size_change : forall w w1 w2,
+  started (b_gen (w_bot w)) -> permuting (b_gen (w_bot w)) -> gen_inv (b_gen (w_bot w)) ->
+  g_stage (b_gen (w_bot w)) <= N_of w ->
+  bot_on_size_change w = (w1, None) ->
+  generate_next_row w1 = (w2, None) ->
+  complete_row (N_of w) (b_row (w_bot w2)).
+Proof. exact rows_complete_after_size_change. Qed.
+Theorem C01_pn_constructor_started : forall stage m b s si custom g,
+  mk_pn_gen stage m b s si custom = Ok g -> started g.
+Proof. exact mk_pn_gen_started. Qed.
+Theorem C01_plain_hunt_constructor_started : forall stage custom g, mk_plain_hunt stage custom = Ok g -> started g.
+Proof. exact mk_plain_hunt_started. Qed.
+Theorem C01_dixon_constructor_started : forall stage p b s custom g, mk_dixon stage p b s custom = Ok g -> started g.
+Proof. exact mk_dixon_started. Qed.
+Example C01_resize_nonvacuous :
+  exists g, mk_plain_hunt 6 None = Ok g /\ started g /\ permuting g /\ gen_inv g /\ g_stage g <= 8.
+Proof. exact resize_hypotheses_nonvacuous. Qed.
 
 (* non-vacuity: the hypotheses hold of Grandsire Triples, and a history with a Single produces rows *)
 Example C01_nonvacuous :
